@@ -22,6 +22,8 @@ PROP = 'C14'
 def draw_model(r):
   if r.random() < 0.12:
     # two independent subgraphs, one signature each (think prefill/decode)
+    if r.random() < 0.25:
+      return {'kind': 'corpus', 'name': r.choice(modelgen.MULTI_CORPUS)}
     return {'kind': 'gen2', 'seed': r.randrange(1 << 30), 'max_ops': r.randint(1, 4)}
   if r.random() < 0.65:
     return {'kind': 'gen', 'seed': r.randrange(1 << 30), 'max_ops': r.randint(1, 7),
@@ -37,7 +39,7 @@ def generate(rseed, tier='quick'):
   specs = [modelgen.get_model(m)[0] for m in models]
   datasets = []
   for mi in range(n_models):
-    if models[mi]['kind'] == 'gen2':
+    if modelgen.is_multi(models[mi]):
       for sig in (0, 1):
         d = modelgen.draw_dataset_desc(r, mi, r.randint(1, 3))
         d['sig'] = sig
@@ -144,7 +146,7 @@ def generate(rseed, tier='quick'):
         fault = {'kind': 'stream_fail', 'at': r.randint(0, hi - lo)}
       cid = 'c%d' % next_cid
       next_cid += 1
-      if models[mi]['kind'] == 'gen2':
+      if modelgen.is_multi(models[mi]):
         ops.append({'op': 'synth_stats', 'q': q, 'out': cid})
         calibs.append((cid, mi))
         continue
@@ -163,7 +165,7 @@ def generate(rseed, tier='quick'):
           di = r.choice(ds)
           cid = 'c%d' % next_cid
           next_cid += 1
-          if models[mi]['kind'] == 'gen2':
+          if modelgen.is_multi(models[mi]):
             ops.append({'op': 'synth_stats', 'q': q, 'out': cid})
           else:
             ops.append({'op': 'calibrate', 'q': q, 'data': di, 'lo': 0, 'hi': datasets[di]['n'],
